@@ -1,6 +1,7 @@
 package checks
 
 import (
+	"os"
 	"fmt"
 	"go/ast"
 	"go/token"
@@ -323,6 +324,15 @@ func (f *c07Func) transfer(s *c07State, n ast.Node) {
 			}
 			return
 		}
+		if id, isId := ast.Unparen(call.Fun).(*ast.Ident); isId && id.Name == "copy" && len(call.Args) == 2 {
+			if _, isBuiltin := f.info.Uses[id].(*types.Builtin); isBuiltin {
+				a, b := f.identVar(call.Args[0]), f.identVar(call.Args[1])
+				if a != nil && b != nil && f.points[a] && f.points[b] {
+					copyPoint(a, b)
+				}
+			}
+			return
+		}
 		sel, isSel := ast.Unparen(call.Fun).(*ast.SelectorExpr)
 		if !isSel {
 			return
@@ -529,6 +539,24 @@ func (f *c07Func) transfer(s *c07State, n ast.Node) {
 			}
 		}
 		for _, l := range st.Lhs {
+			// an element of a point is written (x2[i] = x1[i] - step[i]): the point moves
+			if ix, ok := ast.Unparen(l).(*ast.IndexExpr); ok {
+				if v := f.identVar(ix.X); v != nil && f.points[v] {
+					// element-wise copy of another point keeps the facts of that point
+					copied := false
+					if len(st.Rhs) == 1 {
+						if rb, ok := ast.Unparen(st.Rhs[0]).(*ast.IndexExpr); ok {
+							if b := f.identVar(rb.X); b != nil && f.points[b] && types.ExprString(rb.Index) == types.ExprString(ix.Index) {
+								copyPoint(v, b)
+								copied = true
+							}
+						}
+					}
+					if !copied {
+						kill(v)
+					}
+				}
+			}
 			if v := f.identVar(l); v != nil {
 				if f.points[v] {
 					kill(v)
@@ -676,6 +704,7 @@ func checkC07(c *core.Ctx) error {
 	c.Rule("C07.R4", "line search: bracketing phase and zoom phase accept a step under the same (strong Wolfe) conditions", 2)
 	checkSecantEquation(c)
 	checkQuadraticMin(c)
+	checkCallbackState(c)
 	nfun := 0
 	for _, p := range c.LibPkgs() {
 		if !strings.Contains(p.PkgPath, "/algorithm/") {
@@ -732,6 +761,15 @@ func checkC07(c *core.Ctx) error {
 				changed = false
 				ast.Inspect(fd.Body, func(n ast.Node) bool {
 					if call, ok := n.(*ast.CallExpr); ok {
+						if id, ok := ast.Unparen(call.Fun).(*ast.Ident); ok && id.Name == "copy" && len(call.Args) == 2 {
+							if _, isBuiltin := f.info.Uses[id].(*types.Builtin); isBuiltin {
+								a, b := f.identVar(call.Args[0]), f.identVar(call.Args[1])
+								if a != nil && b != nil && f.points[b] && !f.points[a] {
+									f.points[a] = true
+									changed = true
+								}
+							}
+						}
 						if sel, ok := call.Fun.(*ast.SelectorExpr); ok && sel.Sel.Name == "Set" && len(call.Args) == 1 {
 							a, b := f.identVar(sel.X), f.identVar(call.Args[0])
 							if a != nil && b != nil && f.points[b] && !f.points[a] {
@@ -764,6 +802,9 @@ func checkC07(c *core.Ctx) error {
 				return true
 			})
 			nfun++
+			if os.Getenv("C07_DEBUG") != "" {
+				fmt.Println("DEBUG driver", f.name, len(f.points), "points")
+			}
 			f.run()
 		})
 	}
@@ -901,6 +942,9 @@ func (f *c07Func) run() {
 				})
 				// what is returned when the test succeeds: the return in the true branch, or the one after the loop
 				ret := f.exitReturn(cond, lastRet)
+				if os.Getenv("C07_DEBUG") != "" {
+					fmt.Println("DEBUG stop", f.name, types.ExprString(cond), "res:", len(res), "ret nil:", ret == nil, "lastRet nil:", lastRet == nil)
+				}
 				if ret != nil && len(ret.Results) > 0 && len(res) == 0 {
 					if rv := f.identVar(ret.Results[0]); rv != nil && f.points[rv] {
 						c.Fail("C07.R3", fmt.Sprintf("%s stop#%d", f.name, f.stopOrdinal(cond.Pos())), "stop test uses results of the returned point "+rv.Name(), cond.Pos(),
@@ -915,9 +959,14 @@ func (f *c07Func) run() {
 							f.checkValidExit(s, rv, cons, cond.Pos(), "the stopping test succeeds")
 						}
 						bad := ""
+						// statements of the taken branch that precede the exit (x1.Set(x2); break) act before the return
+						sx := s.clone()
+						for _, st := range f.exitPrefix(cond) {
+							f.transfer(sx, st)
+						}
 						for _, r := range res {
-							if !atHas(s.at[r], rv) {
-								bad = fmt.Sprintf("%s was evaluated at %s", r.Name(), describe(s, r))
+							if !atHas(sx.at[r], rv) {
+								bad = fmt.Sprintf("%s was evaluated at %s", r.Name(), describe(sx, r))
 							}
 						}
 						c.Check(bad == "", "C07.R3", cons, "stop test uses results of the returned point "+rv.Name(), cond.Pos(),
@@ -965,11 +1014,35 @@ func (f *c07Func) mentionsEpsilon(e ast.Expr) bool {
 
 // exitReturn: the return statement executed when the condition holds: the one in the if-body, or, when the body
 // breaks out of the loop, the function's final return.
+// exitPrefix: the statements of the branch taken when cond holds that come before its return/break.
+func (f *c07Func) exitPrefix(cond ast.Expr) []ast.Stmt {
+	var res []ast.Stmt
+	ast.Inspect(f.fd.Body, func(n ast.Node) bool {
+		is, ok := n.(*ast.IfStmt)
+		if !ok || ast.Unparen(is.Cond) != ast.Unparen(cond) {
+			return true
+		}
+		for _, st := range is.Body.List {
+			switch v := st.(type) {
+			case *ast.ReturnStmt:
+				return false
+			case *ast.BranchStmt:
+				if v.Tok == token.BREAK {
+					return false
+				}
+			}
+			res = append(res, st)
+		}
+		return false
+	})
+	return res
+}
+
 func (f *c07Func) exitReturn(cond ast.Expr, last *ast.ReturnStmt) *ast.ReturnStmt {
 	var res *ast.ReturnStmt
 	ast.Inspect(f.fd.Body, func(n ast.Node) bool {
 		is, ok := n.(*ast.IfStmt)
-		if !ok || is.Cond != cond {
+		if !ok || ast.Unparen(is.Cond) != ast.Unparen(cond) {
 			return true
 		}
 		for _, st := range is.Body.List {
